@@ -400,15 +400,16 @@ class ColorVisuals(Visuals):
         ----------
         visual: ColorVisuals object containing a subset of faces.
         """
+        # only slice the colors which are actually stored: passing both
+        # would let the derived `vertex_colors` replace the face colors
+        # as the `vertex_colors` setter clears any other color data
         kwargs = {}
-        if self.defined:
-            if self.face_colors is not None:
-                kwargs.update(face_colors=self.face_colors[face_index])
-
-            if self.vertex_colors is not None:
-                indices = np.unique(self.mesh.faces[face_index].flatten())
-                vertex_colors = self.vertex_colors[indices]
-                kwargs.update(vertex_colors=vertex_colors)
+        kind = self.kind
+        if kind == "face":
+            kwargs.update(face_colors=self.face_colors[face_index])
+        elif kind == "vertex":
+            indices = np.unique(self.mesh.faces[face_index].flatten())
+            kwargs.update(vertex_colors=self.vertex_colors[indices])
 
         result = ColorVisuals(**kwargs)
 
